@@ -41,6 +41,14 @@ func init() {
 	Exec["bmtree.PathsOf/sorted"] = func(a []V) string {
 		return U64s(bmtree.PathsOf(a[0].Strs(), a[1].I32(), a[2].I32(), true))
 	}
+	// [s, from, w1, w2] -> FromStr32 over [from,from+w1), [from+w1,from+w1+w2), [from,from+w1+w2)
+	Exec["bitmap.FromStr32/split"] = func(a []V) string {
+		s, from, w1, w2 := a[0].Str(), a[1].I32(), a[2].I32(), a[3].I32()
+		k1, v1 := bitmap.FromStr32(s, from, from+w1)
+		k2, v2 := bitmap.FromStr32(s, from+w1, from+w1+w2)
+		k, v := bitmap.FromStr32(s, from, from+w1+w2)
+		return L(L(I32(k1), U(v1)), L(I32(k2), U(v2)), L(I32(k), U(v)))
+	}
 	Register("C11", genC11)
 }
 
@@ -399,6 +407,38 @@ func genC11(g *Gen) {
 		from := g.R.Pick(0, 0, 0, 1, 7, 8, 9, 16, g.R.Range(0, 40))
 		h := g.R.Pick(0, 1, 8, 16, 31, 32, 32, g.R.Range(0, 32), g.R.Range(0, 32))
 		c11Paths(g, keys, from, h, "pathsof")
+	}
+
+	// (7) consecutive windows compose: random strings, the split point at / around byte boundaries and the string end
+	nsp := g.N(1500, 20000)
+	for k := 0; k < nsp; k++ {
+		n := g.R.Range(0, 9)
+		s := g.R.Bytes(n, alphabets[g.R.Intn(len(alphabets))])
+		from := g.R.Intn(8*n + 10)
+		w := g.R.Pick(32, 32, 31, 24, 16, g.R.Range(0, 32))
+		var w1 int
+		switch g.R.Intn(4) {
+		case 0: // split at a byte boundary
+			w1 = 8*((from+7)/8+g.R.Intn(4)) - from
+		case 1: // split at / around the end of the string
+			w1 = 8*n - from + g.R.Pick(-1, 0, 1)
+		case 2:
+			w1 = g.R.Pick(0, 1, w-1, w)
+		default:
+			w1 = g.R.Range(0, w)
+		}
+		if w1 < 0 {
+			w1 = 0
+		}
+		if w1 > w {
+			w1 = w
+		}
+		key := c11Key(s, from, w)
+		if key != "" {
+			key = fmt.Sprintf("split/%s/%s", key, map[bool]string{true: "inner", false: "edge"}[w1 > 0 && w1 < w])
+		}
+		g.Stat("split")
+		g.Do("bitmap.FromStr32/split", L(Bytes(s), Int(from), Int(w1), Int(w-w1)), key)
 	}
 
 	// (6) PathsOf on sorted keys with a common prefix (relational checker)
